@@ -25,7 +25,7 @@ import (
 // compression). The two client views are compared with each other (oracle) and with the model.
 //
 //	cfg limit=<n> cache=<0|1> inst=<1..3> comp=<0|1>
-//	run <ex|pr|exh|prh|dyn> <ex|pr> <hdr|-> <ilogs> <ok|f<k>|p<k>> <decl> <prog> <route> <inputs>
+//	run <ex|pr|exh|prh|dyn> <ex|pr|ex+|pr+> <hdr|-> <ilogs> <ok|f<k>|p<k>> <decl> <prog> <route> <inputs>
 //	    inputs := "-" | in ("," in)*    in := (s|c|b) ":" c<vals> [":" khex "=" vhex (";" khex "=" vhex)*] | "x"
 //	                                    (x = cancel; the optional third field is the client's own metadata on the
 //	                                    input batch: sorted, unique, none of the transport's keys)
@@ -115,6 +115,7 @@ type c11Cfg struct {
 
 type c11Session struct {
 	method, kind string
+	state        string // the state TYPE the init returns: kind, or "pr+"/"ex+" (dynamic only): a type with both Produce and Exchange
 	hdr, ilogs   int64
 	iout         string
 	decl         int64
@@ -135,7 +136,7 @@ func parseC11Run(f []string) (*c11Session, bool) {
 	if len(f) != 10 && len(f) != 11 {
 		return nil, false
 	}
-	s := &c11Session{method: f[1], kind: f[2], iout: f[5], prog: f[7]}
+	s := &c11Session{method: f[1], kind: f[2], state: f[2], iout: f[5], prog: f[7]}
 	if len(f) == 11 {
 		if len(f[10]) < 2 || (f[10][0] != 'z' && f[10][0] != 'r') {
 			return nil, false
@@ -155,6 +156,11 @@ func parseC11Run(f []string) (*c11Session, bool) {
 			return nil, false
 		}
 	case "dyn":
+		// a dynamic stream's mode comes from its state: a ProducerState is a producer, whatever else
+		// the type implements ("pr+" = ScriptPrX, "ex+" = ScriptExP: both have Produce AND Exchange)
+		if s.kind == "pr+" || s.kind == "ex+" {
+			s.kind = "pr"
+		}
 		if s.kind != "ex" && s.kind != "pr" {
 			return nil, false
 		}
@@ -256,7 +262,7 @@ func (s *c11Session) initBatch(rec string) arrow.RecordBatch {
 		b.Append(v)
 		return b.NewArray()
 	}
-	cols := []arrow.Array{str(s.prog), str(s.kind), i64(s.hdr), i64(s.ilogs), str(s.iout), i64(s.decl), str(rec), str(s.pad)}
+	cols := []arrow.Array{str(s.prog), str(s.state), i64(s.hdr), i64(s.ilogs), str(s.iout), i64(s.decl), str(rec), str(s.pad)}
 	batch := array.NewRecordBatch(c11ParamsSchema, cols, 1)
 	for _, c := range cols {
 		c.Release()
@@ -664,9 +670,16 @@ func c11Exec(c *Case) {
 			}
 			pv := c11Pipe(s)
 			hv := c11HTTP(s, cfg)
-			c.Stat("run-" + s.method + "-" + s.kind)
+			c.Stat("run-" + s.method + "-" + s.state)
 			c.Stat("term-" + strings.SplitN(pv.term, ":", 2)[0])
-			c.Out(l, "pipe "+pv.String()+" | http "+hv.String())
+			ml := l
+			if s.state != s.kind {
+				// the model knows the documented rule only: such a state is a producer
+				mf := append([]string{}, f...)
+				mf[2] = s.kind
+				ml = strings.Join(mf, " ")
+			}
+			c.Out(ml, "pipe "+pv.String()+" | http "+hv.String())
 			if pv.String() != hv.String() {
 				c.Oracle(c11DiffClass(s, pv, hv), fmt.Sprintf("%q: over the pipe the client sees %s, over HTTP %s", l, pv.String(), hv.String()))
 			}
